@@ -411,34 +411,77 @@ def record_is_best_pair(ctx):
 
 @rule('C04.g', min_instances=4)
 def monitor_replacement_keeps_history(ctx):
-    """SetGenerationMonitor / SetEvaluationMonitor prepend the old contents (unless new) in every accepted-type branch"""
+    """SetGenerationMonitor / SetEvaluationMonitor (every path, locals substituted): wherever a monitor is installed, the old one's contents are prepended to it afterwards - the argument of .prepend is the previous self._stepmon / self._evalmon, and an empty Null() only on a path that has tested `new` or that the new monitor is the old one"""
     for meth, attr in (('SetGenerationMonitor', '_stepmon'), ('SetEvaluationMonitor', '_evalmon')):
         f = ctx.func(AS + '.' + meth)
         sn = selfname_of(f)
-        # current = Null() if new else self.<attr>
-        cur = [s for s in f.node.body if isinstance(s, ast.Assign) and isinstance(s.targets[0], ast.Name) and s.targets[0].id == 'current'
-               and isinstance(s.value, ast.IfExp)]
-        ctx.need(cur, 'no `current = ... if new else ...` in %s' % meth)
-        ie = cur[0].value
-        good = isinstance(ie.test, ast.Name) and ie.test.id == 'new' and is_self_attr(ie.orelse, attr, sn) and \
-            isinstance(ie.body, ast.Call) and callee_text(ie.body) == 'Null'
-        ctx.check(good, meth + '#current', 'current = Null() if new else self.%s' % attr,
-                  'the old monitor is not what gets prepended: `%s`' % norm_stmt(cur[0]), f, cur[0])
-        stores = [s for s in stmts_of(f.node) if isinstance(s, ast.Assign) and is_self_attr(s.targets[0], attr, sn)]
-        ctx.need(stores, 'no store to %s in %s' % (attr, meth))
-        for s in stores:
-            blk = parent(s)
-            body = blk.body if s in blk.body else blk.orelse
-            after = body[body.index(s) + 1:]
-            pre = [a for a in after if isinstance(a, ast.Expr) and isinstance(a.value, ast.Call) and
-                   ''.join(unparse(a.value).split()) == '%s.%s.prepend(current)' % (sn, attr)]
-            gs = guards_of(s, stop=f.node)
-            gensow = any('_genSow' in unparse(g[0]) for g in gs)
-            if gensow:
-                ctx.ok(meth + '#custom', 'custom (_genSow) monitor branch: documented FIXME, exempt', f, s)
-            else:
-                ctx.check(bool(pre), meth + '#prepend', 'store followed by .prepend(current)',
-                          'a replaced monitor loses the history collected so far (no prepend of the old contents)', f, s)
+        OLD = ('attr', ('name', sn), attr)
+        newp = f.args()[2] if len(f.args()) > 2 else 'new'
+
+        def rel(n):
+            return isinstance(n, (ast.Assign, ast.AugAssign, ast.Raise, ast.Return)) or (isinstance(n, ast.Call) and isinstance(n.func, ast.Attribute) and n.func.attr == 'prepend')
+        paths = [p for p in enumerate_paths(f.node, relevant=rel, unroll=(0, 1)) if p.exit != 'raise']
+        ctx.stats['paths_enumerated'] += len(paths)
+        n_inst = n_keep = 0
+        bad = None
+        for p in paths:
+            b = T.Builder()
+            lits = []
+            installed = None       # term of the monitor stored into self.<attr> on this path
+            prepended = None
+            prepends = []
+            custom = False
+            for e in p.events:
+                if e[0] == 'cond':
+                    tt = T.simp(b.t(e[1]))
+                    lits.append((tt, e[2]))
+                    if '_genSow' in T.show(tt):
+                        custom = custom or e[2]
+                elif e[0] == 'stmt':
+                    st = e[1]
+                    for c in calls_where(st, lambda c: isinstance(c.func, ast.Attribute) and c.func.attr == 'prepend', include_lambda=False):
+                        recv = T.simp(b.t(c.func.value))
+                        if c.args:
+                            # (the new monitor may be filled before or after it is stored into self.<attr>)
+                            prepends.append((recv, T.simp(b.t(c.args[0])), installed is not None))
+                    if isinstance(st, ast.Assign) and any(T.term(tg) == OLD for tg in st.targets):
+                        installed = T.simp(b.t(st.value))
+                        for tg in st.targets:      # chained form  self.<attr> = local = value
+                            if isinstance(tg, ast.Name):
+                                b.env[tg.id] = installed
+                        continue           # self.<attr> keeps meaning "the monitor in force": not substituted
+                    if isinstance(st, ast.Assign) and all(isinstance(tg, ast.Name) for tg in st.targets):
+                        b.exec_stmt(st)
+            if installed is None:
+                continue
+            n_inst += 1
+            for recv, arg, after in prepends:
+                if recv == installed or (after and recv == OLD):
+                    prepended = arg
+            if custom:
+                continue        # custom (_genSow) monitor branch: documented FIXME in the source, exempt
+            if prepended is None:
+                bad = (p, 'a replaced monitor loses the history collected so far (no prepend of the old contents)')
+                break
+            leaves = [leaf for cl, leaf in T.cases(prepended)]
+            keeps = any(leaf == OLD for leaf in leaves)
+            empties = [(cl, leaf) for cl, leaf in T.cases(prepended) if leaf != OLD]
+            for cl, leaf in empties:
+                if not (leaf[0] == 'call' and T.show(leaf[1]) == 'Null'):
+                    bad = (p, 'what is prepended is %s, not the previous monitor' % T.show(leaf)[:60])
+                known = list(lits) + list(cl)
+                tested = any(tr and (c == ('name', newp) or (c[0] == 'cmp' and c[1] == 'is') or (c[0] == 'or' and ('name', newp) in c[1:])) for c, tr in known)
+                if not tested:
+                    bad = (p, 'the old contents are dropped (an empty Null() is prepended) on a path that has neither tested `%s` nor that the new monitor is the old one' % newp)
+            if keeps:
+                n_keep += 1
+            if bad:
+                break
+        ctx.need(n_inst >= 1, '%s: no path installs a monitor' % meth)
+        ctx.check(bad is None, meth + '#prepend', '%d installing paths: the old contents are prepended (dropped only when new / same monitor)' % n_inst,
+                  '%s: %s (path %s)' % (meth, bad[1] if bad else '', bad[0].describe(6) if bad else ''), f, bad[0].exit_node if bad and bad[0].exit_node is not None else f.node)
+        ctx.check(n_keep >= 1, meth + '#current', 'some path prepends the previous self.%s' % attr,
+                  'no path of %s prepends the previous monitor: its history is always dropped' % meth, f, f.node)
 
 
 ENERGY_WRITERS = {
